@@ -81,7 +81,10 @@ impl WriteCircuitBreaker {
                 let now = current_timestamp();
                 #[cfg(sierradb_verif)]
                 verif::pause("allow.lf");
-                let last_failure = self.last_failure_time.load(Ordering::Acquire);
+                // A concurrent `record_failure` may have stored a timestamp later than
+                // `now` (or the wall clock stepped back): clamp so `now - last_failure`
+                // cannot underflow
+                let last_failure = self.last_failure_time.load(Ordering::Acquire).min(now);
 
                 if now - last_failure >= self.recovery_timeout.as_millis() as u64 {
                     // Transition to half-open to test recovery
@@ -179,7 +182,8 @@ impl WriteCircuitBreaker {
                 let now = current_timestamp();
                 #[cfg(sierradb_verif)]
                 verif::pause("ert.lf");
-                let last_failure = self.last_failure_time.load(Ordering::Acquire);
+                // See `should_allow_request`: `last_failure` can be later than `now`
+                let last_failure = self.last_failure_time.load(Ordering::Acquire).min(now);
                 let elapsed = Duration::from_millis(now - last_failure);
 
                 if elapsed >= self.recovery_timeout {
